@@ -634,13 +634,266 @@ def typedecorator_once(ctx):
     eng.dispose()
 
 
+# ------------------------------------------------------------------ (F) typed binds x column names
+WEIRD_NAMES = ["plain", "attr.name", "attr[0]", "x:y", "with space", "(p)", "da-sh", "q?m", "a,b", "UPPER", "per%cent"]
+
+
+def bind_contexts(ctx):
+    """bind processing exactly once for every bound value: scalar comparisons, expanding IN /
+    NOT IN (incl. explicit bindparam(expanding=True) and tuple IN), BETWEEN, UPDATE values —
+    for every processor-carrying type x column names that need escaping in DBAPI parameter
+    names.  Also compares the processors of the expanded elements with the Lean model."""
+    import sqlalchemy as sa
+
+    calls = []
+
+    class Tag(sa.TypeDecorator):
+        impl = sa.String
+        cache_ok = True
+
+        def process_bind_param(self, value, dialect):
+            calls.append(value)
+            return None if value is None else "B(" + value + ")"
+
+        def process_result_value(self, value, dialect):
+            return None if value is None else "R(" + value + ")"
+
+    D = decimal.Decimal
+    typed = {
+        "Tag": (Tag, ["a", "b", "c", "d"], lambda v: "R(B(%s))" % v),
+        "DateTime": (sa.DateTime, [dt.datetime(2024, 2, 29, 23, 59, 59), dt.datetime(1, 1, 1, 0, 0, 0, 1), dt.datetime(2000, 1, 1), dt.datetime(9999, 12, 31, 23, 59, 59, 999999)], None),
+        "Date": (sa.Date, [dt.date(2020, 1, 2), dt.date(1, 1, 1), dt.date(1999, 12, 31), dt.date(2024, 2, 29)], None),
+        "Time": (sa.Time, [dt.time(1, 2, 3), dt.time(0, 0, 0, 1), dt.time(23, 59, 59), dt.time(12, 0)], None),
+        "Interval": (sa.Interval, [dt.timedelta(days=1), dt.timedelta(seconds=-5), dt.timedelta(microseconds=7), dt.timedelta(days=400, hours=3)], None),
+        "Enum": (lambda: sa.Enum(Color, native_enum=False), [Color.red, Color.green, Color.blue, Color.green], None),
+        "Boolean": (sa.Boolean, [True, False, True, False], None),
+        "Numeric": (lambda: sa.Numeric(10, 2), [D("1.50"), D("2.25"), D("-3.00"), D("10.10")], None),
+        "Integer": (sa.Integer, [1, 2, 3, 4], None),
+        "LargeBinary": (sa.LargeBinary, [b"a", b"\x00b", b"", b"zz"], None),
+    }
+    rng = ctx.rng
+    n = 40 if ctx.tier == "quick" else 400
+    eng = sa.create_engine("sqlite://")
+    corr_cases, impl, reqs = [], [], []
+    with eng.connect() as conn:
+        for it in range(n):
+            md = sa.MetaData()
+            ncol = rng.choice([1, 2, 2, 3])
+            names = rng.sample(WEIRD_NAMES, ncol)
+            tnames = [rng.choice(list(typed)) for _ in range(ncol)]
+            cols = [sa.Column(nm, typed[tn][0]() if callable(typed[tn][0]) and not isinstance(typed[tn][0], type) else typed[tn][0]())
+                    for nm, tn in zip(names, tnames)]
+            t = sa.Table("bt%d" % it, md, sa.Column("id", sa.Integer, primary_key=True), *cols)
+            case0 = {"what": "binds", "columns": list(zip(names, tnames))}
+            try:
+                md.create_all(conn)
+                rows = [dict({"id": i + 1}, **{nm: typed[tn][1][i] for nm, tn in zip(names, tnames)}) for i in range(4)]
+                conn.execute(t.insert(), rows)
+            except Exception as e:  # noqa: BLE001
+                ctx.count("binds-rejected=%s" % type(e).__name__)
+                conn.rollback()
+                continue
+            for ci, (nm, tn) in enumerate(zip(names, tnames)):
+                col = t.c[nm]
+                vals = typed[tn][1]
+                ids_of = lambda pred: [i + 1 for i in range(4) if pred(vals[i])]  # noqa: E731
+                subset = [vals[i] for i in sorted(rng.sample(range(4), rng.randint(1, 3)))]
+                preds = [
+                    ("eq", col == vals[0], ids_of(lambda v: v == vals[0]), 1),
+                    ("in", col.in_(subset), ids_of(lambda v: v in subset), len(subset)),
+                    ("not-in", col.not_in(subset), ids_of(lambda v: v not in subset), len(subset)),
+                    # (a value-less bindparam takes the column's type; one with a value types itself)
+                    ("in-bindparam-expanding", col.in_(sa.bindparam("bp_%d" % ci, expanding=True)),
+                     ids_of(lambda v: v in subset), len(subset)),
+                    ("in-empty", col.in_([]), [], 0),
+                ]
+                if tn not in ("Enum", "Boolean", "LargeBinary", "Tag"):
+                    lo, hi = sorted(vals)[1], sorted(vals)[2]
+                    preds.append(("between", col.between(lo, hi), ids_of(lambda v: lo <= v <= hi), 2))
+                if ncol >= 2:
+                    o = (ci + 1) % ncol
+                    ocol, ovals = t.c[names[o]], typed[tnames[o]][1]
+                    pairs = [(vals[i], ovals[i]) for i in sorted(rng.sample(range(4), 2))]
+                    preds.append(("tuple-in", sa.tuple_(col, ocol).in_(pairs),
+                                  [i + 1 for i in range(4) if (vals[i], ovals[i]) in pairs], None))
+                for pname, pred, expected, nbinds in preds:
+                    stmt = sa.select(t.c.id).where(pred).order_by(t.c.id)
+                    params = {"bp_%d" % ci: list(subset)} if pname == "in-bindparam-expanding" else {}
+                    del calls[:]
+                    with warnings.catch_warnings():
+                        warnings.simplefilter("ignore")
+                        try:
+                            got = conn.execute(stmt, params).scalars().all()
+                        except Exception as e:  # noqa: BLE001
+                            got = "exc:%s:%s" % (type(e).__name__, str(e)[:120])
+                    case = dict(case0, column=nm, type=tn, predicate=pname)
+                    ctx.case("binds:%s:%s:%s:%s" % (nm, tn, pname, subset if pname != "eq" else ""))
+                    ctx.count("binds-type=" + tn)
+                    ctx.count("binds-name=" + nm)
+                    ctx.count("binds-pred=" + pname)
+                    if got != expected:
+                        ctx.violation("c09-oracle:bind-processing:" + pname, case,
+                                      "column %r (%s) %s: selected ids %r, expected %r" % (nm, tn, pname, got, expected))
+                    elif tn == "Tag" and nbinds is not None and len(calls) != nbinds:
+                        ctx.violation("c09-oracle:typedecorator-bind-once:" + pname, case,
+                                      "column %r %s: %d process_bind_param calls for %d bound values" % (nm, pname, len(calls), nbinds))
+                    # processors of the expanded elements vs the model
+                    if pname in ("in", "not-in", "in-bindparam-expanding") and not isinstance(got, str):
+                        try:
+                            comp = stmt.compile(eng)
+                            # as DefaultExecutionContext does it (unescaped parameter names)
+                            st = comp._process_parameters_for_postcompile(
+                                comp.construct_params(params or None, escape_names=False))
+                            has_single = {nm_: (nm_ in comp._bind_processors) for nm_ in comp.bind_names.values()}
+                            for bind, uname in comp.bind_names.items():
+                                if not bind.expanding:
+                                    continue
+                                esc = comp.escaped_bind_names.get(uname, uname)
+                                nel = len(params.get(bind.key, bind.value) or [])
+                                got_p = ["1" if ("%s_%d" % (esc, j + 1)) in st.processors else "0" for j in range(nel)]
+                                corr_cases.append(dict(case, bind=uname, escaped=esc))
+                                impl.append(",".join(got_p) if got_p else "-")
+                                reqs.append("types expand %d %d %d" % (1 if has_single.get(uname) else 0, 1 if esc != uname else 0, nel))
+                        except Exception as e:  # noqa: BLE001
+                            ctx.count("expand-introspection-failed=%s:%s" % (type(e).__name__, str(e)[:60]))
+            # UPDATE through the type, then read back
+            nm, tn = names[0], tnames[0]
+            v_new = typed[tn][1][1]
+            try:
+                conn.execute(t.update().where(t.c.id == 1).values({t.c[nm]: v_new}))
+                back = conn.execute(sa.select(t.c[nm]).where(t.c.id == 1)).scalar()
+                want = typed[tn][2](v_new) if typed[tn][2] else v_new
+                if back != want:
+                    ctx.violation("c09-oracle:bind-processing:update", dict(case0, column=nm, type=tn, predicate="update"),
+                                  "UPDATE %r=%r then SELECT gave %r, expected %r" % (nm, v_new, back, want))
+            except Exception as e:  # noqa: BLE001
+                ctx.count("binds-update-rejected=%s" % type(e).__name__)
+            conn.rollback()
+    eng.dispose()
+    if ctx.driver_ok() and reqs:
+        ctx.correspond("corr/c09:expanded-bind-processors-vs-Model.Types", corr_cases, impl, ctx.driver(reqs))
+
+
+# ------------------------------------------------------------------ (G) processor-carrying primary keys
+def pk_contexts(ctx):
+    """the primary key an INSERT reports (inserted_primary_key[_rows], ORM attribute after flush)
+    equals what a SELECT of that row returns, for pk types with bind/result processing x
+    explicit / None / omitted pk values x parameters / .values() / executemany / ORM"""
+    import sqlalchemy as sa
+    from sqlalchemy.orm import Session, declarative_base
+
+    class Shifted(sa.TypeDecorator):
+        impl = sa.Integer
+        cache_ok = True
+
+        def process_bind_param(self, value, dialect):
+            return None if value is None else value - 1000
+
+        def process_result_value(self, value, dialect):
+            return None if value is None else value + 1000
+
+    class OrderNo(sa.TypeDecorator):
+        impl = sa.Integer
+        cache_ok = True
+
+        def process_bind_param(self, value, dialect):
+            return None if value is None else int(value[4:])
+
+        def process_result_value(self, value, dialect):
+            return None if value is None else "ORD-%d" % value
+
+    kinds = {
+        "Shifted": (Shifted, lambda n: 1000 + n, "shift"),
+        "OrderNo": (OrderNo, lambda n: "ORD-%d" % n, "ord"),
+        "Integer": (sa.Integer, lambda n: n, "int"),
+    }
+    rng = ctx.rng
+    n = 10 if ctx.tier == "quick" else 80
+    cases, impl, reqs = [], [], []
+    for it in range(n):
+        kname = rng.choice(list(kinds))
+        typ, mk, _ = kinds[kname]
+        eng = sa.create_engine("sqlite://")
+        md = sa.MetaData()
+        t = sa.Table("pk%d" % it, md, sa.Column("id", typ, primary_key=True, autoincrement=True), sa.Column("tag", sa.String(10)))
+        Base = declarative_base(metadata=md)
+        Obj = type("PkObj%d" % it, (Base,), {"__table__": t})
+        with eng.connect() as conn:
+            md.create_all(conn)
+            raw_next = 1
+            for step in range(rng.randint(3, 7)):
+                how = rng.choice(["param-explicit", "param-none", "omitted", "values-explicit", "executemany-explicit", "executemany-omitted",
+                                  "orm-explicit", "orm-omitted"])
+                tag = "t%d_%d" % (it, step)
+                raw = raw_next + rng.choice([0, 0, 5])
+                case = {"what": "pk", "type": kname, "how": how}
+                ctx.case("pk:%s:%s:%d:%d" % (kname, how, it, step))
+                ctx.count("pk-type=" + kname)
+                ctx.count("pk-how=" + how)
+                try:
+                    if how == "param-explicit":
+                        r = conn.execute(t.insert(), {"id": mk(raw), "tag": tag})
+                        reported = [tuple(r.inserted_primary_key)]
+                        explicit = 1
+                    elif how == "param-none":
+                        r = conn.execute(t.insert(), {"id": None, "tag": tag})
+                        reported = [tuple(r.inserted_primary_key)]
+                        explicit = 0
+                    elif how == "omitted":
+                        r = conn.execute(t.insert(), {"tag": tag})
+                        reported = [tuple(r.inserted_primary_key)]
+                        explicit = 0
+                    elif how == "values-explicit":
+                        r = conn.execute(t.insert().values(id=mk(raw), tag=tag))
+                        reported = [tuple(r.inserted_primary_key)]
+                        explicit = 1
+                    elif how == "executemany-explicit":
+                        r = conn.execute(t.insert(), [{"id": mk(raw), "tag": tag}, {"id": mk(raw + 1), "tag": tag + "b"}])
+                        reported = None
+                        explicit = 1
+                    elif how == "executemany-omitted":
+                        r = conn.execute(t.insert(), [{"tag": tag}, {"tag": tag + "b"}])
+                        reported = None
+                        explicit = 0
+                    else:
+                        with Session(conn) as s:
+                            o = Obj(tag=tag) if how == "orm-omitted" else Obj(id=mk(raw), tag=tag)
+                            s.add(o)
+                            s.flush()
+                            reported = [(o.id,)]
+                            s.commit()
+                        explicit = 1 if how == "orm-explicit" else 0
+                    selected = [tuple(x) for x in conn.execute(sa.select(t.c.id).where(t.c.tag.in_([tag])).order_by(t.c.id)).all()]
+                    rawsel = conn.exec_driver_sql("select max(id) from pk%d" % it).scalar()
+                    raw_next = (rawsel or 0) + 1
+                except Exception as e:  # noqa: BLE001
+                    ctx.violation("c09-oracle:pk-insert-raised", case, "%s: %s" % (type(e).__name__, str(e)[:200]))
+                    conn.rollback()
+                    continue
+                if reported is not None and reported != selected:
+                    ctx.violation("c09-oracle:inserted-primary-key-vs-select:" + how, case,
+                                  "%s pk, %s: INSERT reported %r, SELECT of the row returns %r" % (kname, how, reported, selected))
+                if reported is not None and how.startswith(("param", "omitted", "values")) and kname != "OrderNo" and selected:
+                    # the model of _inserted_primary_key_from_lastrowid_getter for an affine processor
+                    shift = 1000 if kname == "Shifted" else 0
+                    stored = selected[0][0] - shift
+                    cases.append(dict(case, stored=stored))
+                    impl.append(str(reported[0][0]))
+                    reqs.append("types ipk %d %d %d %d" % (explicit if how != "values-explicit" else 0, selected[0][0], stored, shift))
+        eng.dispose()
+    if ctx.driver_ok() and reqs:
+        ctx.correspond("corr/c09:inserted-primary-key-vs-Model.Types", cases, impl, ctx.driver(reqs))
+
+
 def run(ctx):
     ctx.rule = (
         "boundary + random datetimes/dates/times (years 1..9999, microsecond edge values) through the real SQLite bind/"
         "result processors and the model; malformed strings inside the modelled layouts; random custom storage formats; "
         "random enum classes with aliases; executed round trips of 24 column types with boundary and random values "
         "(executemany insert + select); a non-idempotent TypeDecorator under random nesting depth 0..4 and 15 "
-        "bind/RETURNING/ORM contexts; a case is a distinct (type, value) or (nesting path)")
+        "bind/RETURNING/ORM contexts; typed comparisons (=, IN, NOT IN, explicit expanding bindparam, tuple IN, BETWEEN, "
+        "UPDATE) for 10 types x 11 column names incl. ones that must be escaped in DBAPI parameter names; primary keys with "
+        "processors x explicit/None/omitted pk x params/values()/executemany/ORM; a case is a distinct (type, value) or (nesting path)")
     ctx.trusted.append("Python datetime.fromisoformat and %-formatting: modelled for the layouts SQLAlchemy writes, compared on every run")
     ctx.assumptions.append("naive datetimes only (SQLite drops tzinfo); Numeric values within scale and 15 significant digits")
     fm = source_formats()
@@ -651,6 +904,8 @@ def run(ctx):
     corr_enum(ctx)
     exec_roundtrips(ctx)
     typedecorator_once(ctx)
+    bind_contexts(ctx)
+    pk_contexts(ctx)
     ctx.sample({"formats": fm})
 
 
@@ -672,6 +927,10 @@ def replay(ctx, obj):
         corr_enum(sub)
     elif what in ("roundtrip", "null"):
         exec_roundtrips(sub)
+    elif what == "binds":
+        bind_contexts(sub)
+    elif what == "pk":
+        pk_contexts(sub)
     else:
         typedecorator_once(sub)
     hits = [v for v in sub.violations if v["key"] == obj.get("key")]
